@@ -4,6 +4,9 @@
 #include <kernel/adjacency/permutation.hpp>
 #include <kernel/adjacency/coloring.hpp>
 #include <kernel/adjacency/cuthill_mckee.hpp>
+#include <kernel/adjacency/dynamic_graph.hpp>
+#include <kernel/adjacency/adjactor.hpp>
+#include <kernel/util/random.hpp>
 
 using namespace FEAT;
 using namespace FEAT::Adjacency;
@@ -35,6 +38,9 @@ static void show_graph(std::ostream& o, const Graph& g)
   show_list(o, g.get_domain_ptr(), g.get_num_nodes_domain() + 1);
   o << " ";
   show_list(o, g.get_image_idx(), g.get_num_indices());
+  // scalar observers of every graph that is shown: num_nodes_domain, num_indices, degree(), degree(i)
+  o << " Q " << g.get_num_nodes_domain() << " " << g.get_num_indices() << " " << g.degree() << " " << g.get_num_nodes_domain();
+  for(Index i = 0; i < g.get_num_nodes_domain(); ++i) o << " " << g.degree(i);
 }
 
 static void show_perm(std::ostream& o, const Permutation& p)
@@ -158,6 +164,152 @@ static void handle(const verif::Tokens& t, std::ostream& o)
     o << "CM "; show_list(o, p.get_perm_pos(), p.size());
     o << " "; show_list(o, p.get_swap_pos(), p.size());
     o << " "; show_list(o, layers.data(), Index(layers.size()));
+  }
+  else if(op == "degree")
+  {
+    // Graph::degree() and degree(i) for every domain node
+    Graph g = read_graph(c);
+    o << "D " << g.degree() << " " << g.get_num_nodes_domain();
+    for(Index i = 0; i < g.get_num_nodes_domain(); ++i) o << " " << g.degree(i);
+  }
+  else if(op == "ctor")
+  {
+    // kind 0: Copy-Array constructor, 1: Copy-Vector constructor, 2: clone() of 0, 3: clone() of a default graph,
+    // 4: move-construct from 0
+    Index kind = c.idx();
+    Index n_img = c.idx(), n_dom = c.idx();
+    std::vector<Index> ptr(1, 0), idx;
+    for(Index i = 0; i < n_dom; ++i)
+    {
+      auto l = c.idxlist();
+      for(auto x : l) idx.push_back(Index(x));
+      ptr.push_back(Index(idx.size()));
+    }
+    if(kind == 0) { Graph g(n_dom, n_img, Index(idx.size()), ptr.data(), idx.data()); show_graph(o, g); }
+    else if(kind == 1) { Graph g(n_img, ptr, idx); show_graph(o, g); }
+    else if(kind == 2) { Graph g(n_dom, n_img, Index(idx.size()), ptr.data(), idx.data()); Graph h = g.clone(); g.clear(); show_graph(o, h); }
+    else if(kind == 3) { Graph g; Graph h = g.clone(); o << "G " << h.get_num_nodes_image() << " " << h.get_num_nodes_domain() << " " << h.get_num_indices(); }
+    else { Graph g(n_img, ptr, idx); Graph h(std::move(g)); show_graph(o, h); }
+  }
+  else if(op == "gpermidx")
+  {
+    Graph g = read_graph(c);
+    auto ip = c.idxlist();
+    std::vector<Index> i(ip.begin(), ip.end());
+    Permutation pi(Index(i.size()), Permutation::ConstrType::perm, i.data());
+    g.permute_indices(pi);
+    show_graph(o, g);
+  }
+  else if(op == "randperm")
+  {
+    // Permutation(n, Random&): the case line repeats the swap array the constructor drew (see c19.py)
+    Index n = c.idx(); Index seed = c.idx();
+    Random rng{Random::SeedType(seed)};
+    Permutation p(n, rng);
+    show_perm(o, p);
+  }
+  else if(op == "randswap")
+  {
+    Index n = c.idx(); Index seed = c.idx();
+    Random rng{Random::SeedType(seed)};
+    Permutation p(n, rng);
+    show_list(o, p.get_swap_pos(), p.size());
+  }
+  else if(op == "permx")
+  {
+    // inverse of inverse, clone, concat with an equal (but distinct) permutation, concat with own inverse
+    auto v = c.idxlist(); std::vector<Index> w(v.begin(), v.end());
+    Permutation p(Index(w.size()), Permutation::ConstrType::perm, w.data());
+    Permutation ii = p.inverse().inverse();
+    Permutation cl = p.clone();
+    Permutation sq = p.clone(); sq.concat(p);
+    Permutation pi = p.clone(); pi.concat(p.inverse());
+    o << "X "; show_perm(o, ii); o << " "; show_perm(o, cl); o << " "; show_perm(o, sq); o << " "; show_perm(o, pi);
+  }
+  else if(op == "permself")
+  {
+    // aliased self-concatenation p.concat(p) (reads entries it has already overwritten)
+    auto v = c.idxlist(); std::vector<Index> w(v.begin(), v.end());
+    Permutation p(Index(w.size()), Permutation::ConstrType::perm, w.data());
+    p.concat(p);
+    show_perm(o, p);
+  }
+  else if(op == "colorctor")
+  {
+    // kind 0: array constructor (num_colors = number of distinct colours), 1: vector constructor with the given
+    // num_colors, 2: clone of 0
+    Index kind = c.idx(); Index nc = c.idx();
+    auto cv = c.idxlist(); std::vector<Index> col(cv.begin(), cv.end());
+    Coloring co;
+    if(kind == 0) co = Coloring(Index(col.size()), col.data());
+    else if(kind == 1) co = Coloring(nc, col);
+    else { Coloring t(Index(col.size()), col.data()); co = t.clone(); }
+    o << "K " << co.get_num_colors() << " " << co.get_max_color() << " ";
+    show_list(o, co.get_coloring(), co.get_num_nodes());
+  }
+  else if(op == "adjcomp")
+  {
+    // CompositeAdjactor<Graph,Graph>: images of every domain node through the lazy iterator
+    Graph a = read_graph(c);
+    Graph b = read_graph(c);
+    CompositeAdjactor<Graph, Graph> ca(a, b);
+    o << "J " << ca.get_num_nodes_domain() << " " << ca.get_num_nodes_image();
+    Index guard = 0;
+    for(Index i = 0; i < ca.get_num_nodes_domain(); ++i)
+    {
+      std::vector<Index> im;
+      auto it = ca.image_begin(i); auto jt = ca.image_end(i);
+      for(; it != jt; ++it) { im.push_back(*it); if(++guard > 100000) { o << " RUNAWAY"; return; } }
+      o << " "; show_list(o, im.data(), Index(im.size()));
+    }
+  }
+  else if(op == "adjrender")
+  {
+    // Graph(render_type, CompositeAdjactor): the single-adjactor kernels on the lazy iterator
+    Index rt = c.idx();
+    Graph a = read_graph(c);
+    Graph b = read_graph(c);
+    CompositeAdjactor<Graph, Graph> ca(a, b);
+    Graph r(RenderType(rt), ca);
+    show_graph(o, r);
+  }
+  else if(op == "dyn")
+  {
+    // script on a DynamicGraph(n_dom, n_img): "i d k" insert, "e d k" erase, "x d k" exists, "c" clear,
+    // "r rt" render as Graph, "g" degree()/get_num_indices()/degree(i), "l" clone and continue on the clone
+    Index n_img = c.idx(), n_dom = c.idx();
+    DynamicGraph dg(n_dom, n_img);
+    o << "Y";
+    while(!c.done())
+    {
+      std::string k = c.str();
+      if(k == "i") { Index d = c.idx(), im = c.idx(); o << " " << (dg.insert(d, im) ? 1 : 0); }
+      else if(k == "e") { Index d = c.idx(), im = c.idx(); o << " " << (dg.erase(d, im) ? 1 : 0); }
+      else if(k == "x") { Index d = c.idx(), im = c.idx(); o << " " << (dg.exists(d, im) ? 1 : 0); }
+      else if(k == "c") { dg.clear(); o << " c"; }
+      else if(k == "l") { DynamicGraph t = dg.clone(); dg.clear(); dg = std::move(t); o << " l"; }
+      else if(k == "g")
+      {
+        o << " " << dg.degree() << " " << dg.get_num_indices() << " " << dg.get_num_nodes_domain();
+        for(Index i = 0; i < dg.get_num_nodes_domain(); ++i) o << " " << dg.degree(i);
+      }
+      else if(k == "r") { Index rt = c.idx(); Graph r(RenderType(rt), dg); o << " "; show_graph(o, r); }
+      else { o << " BAD-OP"; return; }
+    }
+  }
+  else if(op == "dynrender")
+  {
+    // DynamicGraph(render_type, graph) [kind 1] / DynamicGraph(render_type, a, b) [kind 2] /
+    // DynamicGraph(as_is, a).compose(b) [kind 3], rendered back as_is
+    Index kind = c.idx(); Index rt = c.idx();
+    Graph a = read_graph(c);
+    if(kind == 1) { DynamicGraph dg(RenderType(rt), a); Graph r(RenderType::as_is, dg); show_graph(o, r); }
+    else
+    {
+      Graph b = read_graph(c);
+      if(kind == 2) { DynamicGraph dg(RenderType(rt), a, b); Graph r(RenderType::as_is, dg); show_graph(o, r); }
+      else { DynamicGraph dg(RenderType(rt), a); dg.compose(b); Graph r(RenderType::as_is, dg); show_graph(o, r); }
+    }
   }
   else
     o << "BAD-OP";
